@@ -208,6 +208,8 @@ FreeSucc(s) ==
   IN {t \in same \cup month \cup year : NextIsoDay(s, t, edir)}
 EraChanges(h) == Cardinality({i \in 1..(Len(h) - 1) : h[i].era # h[i + 1].era})
 
+\* one ISO day forward: the successor must satisfy NextIsoDay (free model: every such successor; otherwise the
+\* calendar's own next record, and WalkRule checks that it is related to the current one by NextIsoDay)
 Step == /\ cur.n < hi
         /\ \E t \in (IF Free THEN FreeSucc(cur) ELSE {FieldsOf(cur.cal, cur.n + 1)}) :
              /\ cur' = t /\ prev' = cur
@@ -240,6 +242,11 @@ Spec == Init /\ [][Next]_vars
 \* the walk rules hold on every step of the calendar being walked, and the diagnosis agrees with the relation
 WalkRule == (last.op = "day" /\ prev # Nil) => (NextIsoDay(prev, cur, last.dir) /\ StepFail(prev, cur, last.dir) = "")
 DiagnosisAgrees == (last.op = "day" /\ prev # Nil) => (NextIsoDay(prev, cur, last.dir) <=> StepFail(prev, cur, last.dir) = "")
+\* "exactly one of": the three kinds of step exclude each other
+StepExclusive == (last.op = "day" /\ prev # Nil) =>
+  Cardinality({k \in {"same-month", "next-month", "next-year"} :
+                 IF k = "same-month" THEN SameMonth(prev, cur) ELSE IF k = "next-month" THEN NextMonth(prev, cur)
+                 ELSE NextYear(prev, cur, last.dir)}) = 1
 Bounds == cur # Nil => (WF(cur) /\ McOrdinal(cur, leaps))
 RebuildIdentity == last.op = "rebuild" => cur = last.before
 WithCalendarKeepsDay == last.op = "with-calendar" => (cur.n = last.before.n /\ cur.cal = last.to)
